@@ -23,6 +23,11 @@ func addTransactionMetadata(w http.ResponseWriter, r *http.Request) {
 		api.BadRequest(w, common.ErrValidation, errors.New("invalid metadata format"))
 		return
 	}
+	if m == nil {
+		// the body was the JSON value null
+		api.BadRequest(w, common.ErrValidation, errors.New("invalid metadata format"))
+		return
+	}
 
 	txID, err := strconv.ParseUint(chi.URLParam(r, "id"), 10, 64)
 	if err != nil {
